@@ -33,7 +33,7 @@ func c31(r *sim.R) *sim.Violation {
 	restore := engine.VerifSetNumProcessingUnits(1 + t.Draw(2))
 	defer restore()
 	q := &model.Query{Attrs: []string{"sip", "dport"}, Ifaces: m.IfaceNames()[:1], First: 1, Last: 4102444800} // one interface: see C11
-	keepAlive := []time.Duration{0, 200 * time.Millisecond, 3 * time.Second}[t.Draw(3)]
+	keepAlive := []time.Duration{0, 200*time.Millisecond + 7*time.Nanosecond, 3*time.Second + 7*time.Nanosecond}[t.Draw(3)]
 
 	type call struct {
 		client     int
@@ -99,7 +99,7 @@ func c31(r *sim.R) *sim.Violation {
 		cancelAt := make([]int, nCalls)
 		for j := range kinds {
 			kinds[j] = []string{"ok", "ok", "ioerror", "cancel"}[t.Draw(4)]
-			delays[j] = time.Duration(t.Draw(4)) * 300 * time.Millisecond
+			delays[j] = time.Duration(t.Draw(4))*300*time.Millisecond + time.Duration(ci*17+j+1)*time.Microsecond // offsets: no two timers fire at the same instant
 			cancelAt[j] = 1 + t.Draw(40)
 		}
 		go func(ci int) {
@@ -158,7 +158,7 @@ func c31(r *sim.R) *sim.Violation {
 		if idle > 4000 {
 			return false
 		}
-		sim.AdvanceClock(250 * time.Millisecond)
+		sim.AdvanceClock(250*time.Millisecond + 11*time.Nanosecond)
 		sc.SimTime += 250 * time.Millisecond
 		return true
 	}
